@@ -19,6 +19,16 @@ CHECKS = {
         technique='SMT reachability (z3) over MIR unwind edges: CFG x drop-flags x lock/write monitor per closure call site; native panic-injection replay',
         text='Fault enumeration over every user-closure call site found in the MIR of the current tree: z3 decides, complete for the finite CFG x drop-flag x monitor product, whether an unwind path from the closure reaches resume with a bin lock held (U1), writes/retires shared state while unwinding (U2), follows a shared write made earlier in the same critical section (U3) or drops a poisoning std MutexGuard (U4). A sat answer is replayed natively with a panic at every i-th invocation, comparing the map with a model and writing to the same bin from a second thread under a watchdog.',
         note='Only panics of the closures named by the property are fault points. Effect classes are assigned by callee name. Contents-vs-count consistency after a panic in retain is not decided by this path check (it is what the concrete-heap engine is for); see DESIGN.md.'),
+    'C12': dict(
+        level='model_checking', design='DESIGN.md §4 C12',
+        technique='SMT reachability (z3) over MIR CFGs with a least fixed point over the crate call graph (no path from a read entry point to a blocking primitive) + cycle-without-progress queries on the read loops in isolation; native suspended-writer replay',
+        text='For every read entry point found in the MIR (lookups, iteration, len, equality, set relations, wrapper methods) z3 decides that no CFG path, through any crate-local callee or closure, reaches Mutex::lock, lock_root/contended_lock, park, yield_now or a helping/initialising function containing them; and that, with compare-exchange unable to fail (reader in isolation, writer suspended), every cycle of TreeBin::find, Table::find, find_tree_node and NodeIter::next passes a pointer advance. Complete for the finite CFGs. Counterexamples are replayed with a writer parked inside a bin critical section and with a tree bin whose root lock is held.',
+        note='Blocking primitives recognised by name; generic user code (Ord/Borrow/Hash impls) and seize internals are trusted to be non-blocking. Does not decide lock-freedom of reads while writers keep changing the structure (a schedule property).'),
+    'C19': dict(
+        level='model_checking', design='DESIGN.md §4 C19',
+        technique='SMT reachability (z3) over the MIR (--features serde,rayon) of the serde visitors/serializers (no own panic site reachable; serialisation = collect_map/collect_seq over own iterator) and of rayon\'s per-item closure (exactly one insert of the item); native replay over all small inputs',
+        text='Serde: z3 decides on the CFG of visit_map/visit_seq/deserialize that no panic site of these functions is reachable on any path (errors leave through ?), and that every returning path of the serializers is one collect_map/collect_seq over the pinned wrapper\'s own iterator. Rayon: every parallel entry point funnels into one per-item closure, for which z3 decides that each returning path performs exactly one HashMap::insert of the item\'s key and value. Counterexamples are replayed natively over all key sequences with repetitions up to length 4 (text and self-describing deserializers) and rayon pools of 1/2/4 threads.',
+        note='NOT covered (stated not-applicable part): how rayon\'s pool distributes and interleaves items - real parallelism is outside solver-based checking here; the concurrent correctness of insert itself is C01. Panics inside MapAccess/SeqAccess implementations or inside HashMap::insert are attributed to those callees.'),
 }
 
 NOT_APPLICABLE = {
